@@ -56,6 +56,7 @@ type DB struct {
 	ioErr      bool
 	LateWrites int // writes attempted between a crash and Revive (dropped)
 	IOFailures int // I/O errors injected so far
+	lastCrash  Crash
 }
 
 var _ dbm.DB = (*DB)(nil)
@@ -83,6 +84,10 @@ func (d *DB) Revive() {
 	d.crashAt = -1
 	d.mu.Unlock()
 }
+
+// Dead reports whether a crash fired and the instance was not revived yet, and which crash it was. Code that
+// recovers the crash "panic" and carries on is running in a process that does not exist any more.
+func (d *DB) Dead() (bool, Crash) { d.mu.Lock(); defer d.mu.Unlock(); return d.dead, d.lastCrash }
 
 // Seq returns the number of write events performed so far.
 func (d *DB) Seq() int64 { d.mu.Lock(); defer d.mu.Unlock(); return d.seq }
@@ -163,7 +168,8 @@ func (d *DB) apply(kind string, sync bool, ops []op) {
 			panic(Crash{Event: d.seq, Label: label, IOError: true})
 		}
 		d.dead = true
-		panic(Crash{Event: d.seq, Label: label})
+		d.lastCrash = Crash{Event: d.seq, Label: label}
+		panic(d.lastCrash)
 	}
 	for i := range ops {
 		o := &ops[i]
